@@ -26,3 +26,20 @@ claim("C13",
       "the raw $ref text. Necessary conditions of spelling-independence; byte equality of outputs and YAML scalar typing are not decided.",
       "json struct tags name the keywords; encoding/json, goccy/go-yaml behave as documented",
       "DESIGN.md §2 C13")
+
+claim("C10",
+      "SSA shape check of the loader memo table (B-MEMO) and its key, dominance/path rules for cycle bookkeeping (B-CYCLE), provenance of the parent path for nested refs (B-PARENT)",
+      "Decides the bookkeeping that reference resolution rests on: the loader cache behaves as a memo table (hit returns cached without loading; miss forwards the arguments, "
+      "stores under the same key, returns the loaded schema) and its key names the resolved location; declarations are registered in both lookup maps before generation can "
+      "recurse; every detectCycle cleanup is deferred before any recursive generation call and deletes the inserted key; the base path for nested relative refs is a resolved path. "
+      "Necessary conditions of 'one Go type per definition, relative resolution, terminating recursion'; inline-vs-ref behavioural equality is not decided by this check.",
+      "filepath functions behave as documented; one known finding (cache key is the raw ref string)",
+      "DESIGN.md §2 C10")
+claim("C20",
+      "SSA data-flow rules for output routing (B-ROUTE), who-may-write on the routing table, derived uniqueness of output file names, structural check of the cross-package decision (B-XPKG)",
+      "Decides that every schema generator is built with the output looked up for its own schema's $id, that only beginOutput extends the id->output table and does so only after "
+      "its same-file search found nothing (file names unique, conflict detection order-free), that the qualification decision compares package names and the qualified result/import "
+      "come from the target's output, and that the mapping id list has no phantom entries. Necessary conditions of 'each schema lands once in its mapped file/package'; building the "
+      "emitted packages together and argument-order independence are not decided.",
+      "json tag $id identifies the id field",
+      "DESIGN.md §2 C20")
